@@ -82,9 +82,37 @@ class Gen:
                 return chunks
         return None
 
-    def write_txn(self, partial=False, oldtime=False):
+    def chunks_of_size(self, n):
+        """Transaction content that takes exactly n log blocks (incl. the commit block), or None."""
+        rng = self.rng
+        opts = []
+        for ndesc in (1, 2):
+            for nrev in (0, 1):
+                ntag = n - 1 - ndesc - nrev
+                if ntag < ndesc or ntag > self.nb or (ndesc == 0 and nrev == 0):
+                    continue
+                opts.append((ndesc, nrev, ntag))
+        if n == 2:
+            opts.append((0, 1, 0))
+        if not opts:
+            return None
+        ndesc, nrev, ntag = rng.choice(opts)
+        tb = rng.sample(range(1, self.nb + 1), ntag)
+        tags = [{"blk": b, "v": self.ver + i + 1, "esc": 1 if rng.random() < 0.25 else 0} for i, b in enumerate(tb)]
+        chunks = []
+        if ndesc == 1:
+            chunks = [{"t": "d", "tags": tags}]
+        elif ndesc == 2:
+            k = rng.randint(1, ntag - 1)
+            chunks = [{"t": "d", "tags": tags[:k]}, {"t": "d", "tags": tags[k:]}]
+        if nrev:
+            rv = sorted(rng.sample(range(1, self.nb + 1), rng.choice([1, 1, 2])))
+            chunks.insert(rng.randint(0, len(chunks)), {"t": "r", "blks": rv})
+        return chunks
+
+    def write_txn(self, partial=False, oldtime=False, size=None):
         room = self.L - self.used()
-        chunks = self.make_chunks(room)
+        chunks = self.make_chunks(room) if size is None else (self.chunks_of_size(size) if size <= room else None)
         if chunks is None:
             return False
         hassum = 0
@@ -225,6 +253,119 @@ def sample(rng, index):
             "conc": {"first": rng.choice([1, 1, 2, 5]), "uuid_mode": rng.choice(["first", "first", "all"]),
                      "junk_mode": rng.choice(["zero", "noise"])},
             "stratum": {"kind": kind if done else kind + "(n/a)", "csum": cfg["csum"], "b64": cfg["b64"], "async": cfg["async"]}}
+
+
+# ------------------------------------------------------------------ second life of the log (spec/Jbd2Gen.tla)
+GEN2_KINDS = ["none", "none", "partial", "none", "ctl_junk", "partial", "ctl_wrongseq", "ctl_badcsum", "data_stale", "ctl_stale", "tag_badcsum", "v1_badsum"]
+GEN2_ALIGN = ["tid", "commit", "free"]
+
+
+def ring_tids(log):
+    return [r["seq"] for r in log if r["t"] in ("desc", "revoke", "commit")]
+
+
+def next_tid(j):
+    """Tid following the last transaction of the valid prefix (NextTidOf of Jbd2.tla)."""
+    if j["jsb"]["start"] == 0:
+        return j["jsb"]["seq"]
+    n = 0
+    for h in j["hist"]:
+        if not h["valid"]:
+            break
+        n += 1
+    return j["jsb"]["seq"] + n
+
+
+def sequential_ring(j):
+    """The ring-part of RestartableOf (Jbd2Gen.tla): no control block carries a tid beyond the transaction the replay
+    stops at.  Only used to avoid tool runs TLC would skip anyway; TLC decides (TRestart / TSkipRestart)."""
+    return all(t < next_tid(j) + 1 for t in ring_tids(j["log"]))
+
+
+def continue_journal(rng, j, obs, jsb_seen, index):
+    """The journal j was replayed: target blocks now hold versions `obs`, the journal superblock found on the image is
+    jsb_seen = {start: 0, seq}.  Continue like Restart / Overwrite / WriteTxn / Damage of Jbd2Gen.tla: the log restarts
+    at ring position 1 with tid jsb_seen.seq + skew, the old blocks stay in the ring.  Strata cycle with `index`:
+    skew 0/1 x alignment (boundary catalogue below / anywhere) x damage kind."""
+    cfg = dict(j["cfg"])
+    L, nb = cfg["L"], cfg["nb"]
+    skew = index % 2
+    align = GEN2_ALIGN[(index // 2) % len(GEN2_ALIGN)]
+    kind = GEN2_KINDS[(index // 6) % len(GEN2_KINDS)]
+    escof = dict(versions(j))
+    g = Gen.__new__(Gen)
+    g.rng, g.cfg, g.L, g.nb = rng, cfg, L, nb
+    g.log = copy.deepcopy(j["log"])
+    g.head = 1
+    g.nseq = jsb_seen["seq"] + skew
+    g.ver = max([v for v in escof if v < STALEV] + [0])
+    g.fs = list(obs)
+    g.fsesc = [escof.get(v, 0) for v in obs]
+    g.hist = []
+    g.jsb = {"start": 0, "seq": jsb_seen["seq"]}
+    g.time = max([r["time"] for r in j["log"] if r["t"] == "commit"] + [5]) + rng.randint(0, 3)
+    # in-place rewrites (not journalled), preferably of blocks that transactions of the first life logged
+    logged = sorted({t["blk"] for h in j["hist"] for t in h["tags"]})
+    over = []
+    for _ in range(rng.choice([0, 1, 1, 2])):
+        b = rng.choice(logged) if logged and rng.random() < 0.8 else rng.randint(1, nb)
+        if b in over:
+            continue
+        g.ver += 1
+        g.fs[b - 1] = g.ver
+        g.fsesc[b - 1] = 1 if rng.random() < 0.2 else 0
+        over.append(b)
+    # new transactions from ring position 1.  Boundary catalogue of the mechanism "sequence numbers keep old blocks dead":
+    # the new log runs into an old control block at ring position p whose tid t continues the new log's numbering IF the new
+    # log had been numbered from a stale base (the old s_sequence, or the tid the replay stopped at):
+    #   "tid"     k complete new transactions fill positions 1..p-1 and an old descriptor/revoke block with t = base + skew + k sits at p
+    #   "commit"  the last of k new transactions is cut short, and where its commit block belongs sits an old commit block
+    #             with t = base + skew + k - 1
+    # With a correctly advanced s_sequence none of these blocks is sequence-consistent; the second replay must stop in front of them.
+    S0, NT = j["jsb"]["seq"], next_tid(j)
+    cands = {"tid": [], "commit": []}
+    for p in range(2, L + 1):
+        r = j["log"][p - 1]
+        if r["t"] not in ("desc", "revoke", "commit"):
+            continue
+        for base in {S0, NT}:
+            k = r["seq"] - base - skew + (1 if r["t"] == "commit" else 0)
+            n = p if r["t"] == "commit" else p - 1          # log blocks the k transactions take (incl. the missing commit block)
+            if k >= 1 and 2 * k <= n <= k * (nb + 4):
+                cands["commit" if r["t"] == "commit" else "tid"].append((k, n))
+    sizes = None
+    order = [align] + [a for a in ("tid", "commit") if a != align] if align != "free" else []
+    for a in order:
+        if cands[a]:
+            k, n = rng.choice(sorted(set(cands[a])))
+            sizes = [2] * k                                 # random composition of n into k parts of 2..nb+4
+            for _ in range(n - 2 * k):
+                sizes[rng.choice([x for x in range(k) if sizes[x] < nb + 4])] += 1
+            rng.shuffle(sizes)
+            if a != align:
+                align = a + "(for " + align + ")"
+            if a == "commit":
+                kind = "partial"
+            break
+    if sizes is None:
+        if align != "free":
+            align = "free(n/a)"
+        sizes = [None] * rng.choice([1, 1, 2, 2, 3])
+    for i, sz in enumerate(sizes):
+        last = i == len(sizes) - 1
+        if not g.write_txn(partial=(kind == "partial" and last), size=sz) and sz is not None:
+            g.write_txn(partial=(kind == "partial" and last))
+    if not g.hist:
+        return None
+    done = True
+    if kind not in ("none", "partial"):
+        done = g.damage(kind)
+    hist = [{k: v for k, v in h.items() if not k.startswith("_")} for h in g.hist]
+    written = sorted({adv(L, h["at"], o) for h in hist for o in range(h["wr"])})
+    return {"cfg": cfg, "jsb": g.jsb, "nr": 1, "fs0": list(g.fs), "fs0esc": list(g.fsesc), "log": g.log, "hist": hist,
+            "skew": skew, "over": over, "written": written, "conc": j["conc"],
+            "stratum": {"kind": kind if done else kind + "(n/a)", "align": align, "skew": skew,
+                        "csum": cfg["csum"], "b64": cfg["b64"], "async": cfg["async"]}}
 
 
 def versions(j):
